@@ -199,7 +199,7 @@ class C16(AAdapterProp):
             for _ in range(rng.randrange(1, 9)):
                 x = rng.random()
                 if x < 0.75:
-                    ops.append(("R", tuple(rng.randrange(256) for _ in range(rng.choice([0, 0, 1, 3]))), rng.choice([0, 0, 1, 2, 3, 8, 300]), rng.choice([0, 0, 1])))
+                    ops.append(("R", tuple(rng.randrange(256) for _ in range(rng.choice([0, 0, 1, 3]))), rng.choice([0, 0, 1, 2, 3, 8, 300]), rng.choice([0, 0, 0, 1, 1, 2, 3, 5])))
                 elif x < 0.9:
                     ops.append(("W", tuple(rng.randrange(256) for _ in range(rng.randrange(0, 5)))))
                 else:
